@@ -62,6 +62,12 @@ def gen_cases(tier, seed):
                 op["ids"] = ident if rng.random() < 0.6 else [rng.getrandbits(32) for _ in range(4)]
                 op["reply"] = rng.choice(["ok", "ok", "silence"])
             ops.append(op)
+            if len(ops) % 7 == 0:
+                # the identify services: vendor, product, revision low / high, serial low / high -- all different
+                ids6 = [ident[0], ident[1], ident[2] & 0xFFFF0000, ident[2] | 0xFFFF, ident[3] & 0xFFFFFF00, ident[3] | 0xFF]
+                ops.append({"name": "identify", "ids": ids6 if len(ops) % 2 else [(x * 2654435761 + len(ops)) & 0xFFFFFFFF for x in ids6],
+                            "reply": "ok"})
+                ops.append({"name": "identify_nc", "reply": "ok"})
         cases.append({"ident": ident, "nid": nid, "ops": ops})
     # selective switch and identity inquiry for boundary identities (all-one, all-zero, single parts all-one)
     for ident in ([0xFFFFFFFF] * 4, [0] * 4, [0xFFFFFFFF, 1, 2, 3], [1, 0xFFFFFFFF, 0x80000000, 0x7FFFFFFF],
